@@ -898,3 +898,25 @@ func guardErrNil(g guard) bool {
 func guardErrNonNil(g guard) bool {
 	return guardNonNil(g, func(v ssa.Value) bool { return types.Identical(v.Type(), types.Universe.Lookup("error").Type()) })
 }
+
+// loadFieldPath: for a value `*(&(&root.f1).f2…)` returns the root address value and the field names walked.
+func loadFieldPath(v ssa.Value) (ssa.Value, []string) {
+	ld, ok := v.(*ssa.UnOp)
+	if !ok || ld.Op != token.MUL {
+		return nil, nil
+	}
+	var path []string
+	cur := ld.X
+	for {
+		fa, ok := cur.(*ssa.FieldAddr)
+		if !ok {
+			break
+		}
+		path = append([]string{fieldVarOfAddr(fa).Name()}, path...)
+		cur = fa.X
+	}
+	if len(path) == 0 {
+		return nil, nil
+	}
+	return cur, path
+}
